@@ -18,6 +18,9 @@ def norm(path):
     if path is None:
         return None
     p = _LT.sub("", path)
+    if "::__rt::" in p:
+        # re-export path printed when the defining crate is reachable through a facade (wasm_bindgen::__rt::core::..)
+        p = re.sub(r"\b[a-z_0-9]+::__rt::(core|std|alloc)::", r"\1::", p)
     p = _LT2.sub("", p)
     p = _LT3.sub("", p)
     return p
